@@ -18,6 +18,7 @@ func TestQueue(t *testing.T) {
 	rapid.Check(t, func(rt *rapid.T) {
 		capacity := rapid.IntRange(1, 5).Draw(rt, "capacity")
 		h := newHist(check, fmt.Sprintf("capacity=%d", capacity))
+		defer h.guard(rt)
 		q := queue.New[int](capacity)
 		var model []int
 		next, writes := 1, 0
@@ -107,6 +108,7 @@ func TestRingBuffer(t *testing.T) {
 	rapid.Check(t, func(rt *rapid.T) {
 		capacity := rapid.IntRange(1, 5).Draw(rt, "capacity")
 		h := newHist(check, fmt.Sprintf("capacity=%d", capacity))
+		defer h.guard(rt)
 		r := ringbuffer.NewRingBuffer[int](capacity)
 		var model []int // newest first
 		next, adds := 1, 0
@@ -159,6 +161,7 @@ func TestStack(t *testing.T) {
 	rapid.Check(t, func(rt *rapid.T) {
 		flavour := rapid.SampledFrom([]string{"default", "simple", "threadsafe"}).Draw(rt, "flavour")
 		h := newHist(check, flavour)
+		defer h.guard(rt)
 		var s stack.Stack[int]
 		switch flavour {
 		case "default":
